@@ -180,6 +180,18 @@ class Space:
                     f.write(text)
         return self._dir
 
+    def edited(self, edits: typing.Dict[str, typing.Tuple[str, typing.List[str]]]) -> 'Space':
+        """a VARIANT of the namespace: same type names and versions, some bodies (and dependencies) edited"""
+        v = Space(self.root)
+        v.files, v.deps, v.order = dict(self.files), {k: list(d) for k, d in self.deps.items()}, list(self.order)
+        for tid, (body, deps) in edits.items():
+            full, major, minor = tid.rsplit('.', 2)
+            rel = '/'.join(full.split('.')) + '.%s.%s.dsdl' % (major, minor)
+            assert rel in v.files, rel
+            v.files[rel] = body
+            v.deps[tid] = list(deps)
+        return v
+
     def closure(self, tids) -> typing.List[str]:
         seen: typing.List[str] = []
         stack = list(tids)
@@ -210,6 +222,21 @@ def builtin_space(rng, extra: int) -> Space:
     sp.add('', 'Svc', '%s req\n@sealed\n---\n%s rsp\n@sealed\n' % (prim, arr), [prim, arr])
     sp.add('', 'Solo', 'void3\nuint5 z\n@sealed\n', [])
     sp.add('', 'Prim', 'uint8 a\nint16 b\nfloat32 c\nuint8 e\n@sealed\n', [], ver=(1, 1))
+    # every construct for which the C/C++/Python templates ask for unique names: padding, saturated odd-sized integers,
+    # float16, fixed and variable arrays of primitives and of (delimited) composites, nested composites
+    sp.add('', 'Mix', 'float16 h\nuint5 s\ntruncated uint5 t\nvoid3\nint7 i\n%s[<=2] dl\nfloat16[3] hs\n%s[2] fp\nint12[<=3] vi\n@extent 8192\n'
+           % (leaf, prim), [leaf, prim])
+    parta = sp.add('', 'PartA', 'uint8[2] a\n@sealed\n', [])
+    partb = sp.add('', 'PartB', 'uint8[2] b\n@sealed\n', [])
+    holder = sp.add('', 'Holder', '%s part\nuint8 tail\n@sealed\n' % parta, [parta])
+    # the second variant of the same namespace: a dependency replaced by an equally sized one, field order changed,
+    # a constant changed -- same names, versions and sizes
+    sp.v2 = None
+    sp._edits = {
+        holder: ('%s part\nuint8 tail\n@sealed\n' % partb, [partb]),
+        prim: ('int16 b\nuint8 a\nfloat32 c\nbool d\n@sealed\n', []),
+        leaf: ('# a leaf\nuint32 v\nuint8 KONST = 9\n@extent 64\n', []),
+    }
     for i in range(extra):
         lines, deps = [], []
         if rng.random() < 0.3:
@@ -226,6 +253,7 @@ def builtin_space(rng, extra: int) -> Space:
             lines.append('%s%s f%d' % (ty, shape, j))
         lines.append('@sealed')
         sp.add('gen', 'R%d' % i, '\n'.join(lines) + '\n', sorted(set(deps)))
+    sp.v2 = sp.edited(sp._edits)
     return sp
 
 
@@ -242,7 +270,7 @@ LANG_OPTS = {
 # ---------------------------------------------------------------------------------------------------------------
 def run_history(job: dict) -> dict:
     work = core.scratch('nnvverif-c10-')
-    doc = {'work': work, 'root': job['root'], 'dsdl_root': job['dsdl_root'], 'steps': job['steps']}
+    doc = {'work': work, 'root': job['root'], 'dsdl_roots': job['dsdl_roots'], 'steps': job['steps']}
     p = core.run([core.PY, HARNESS], input=json.dumps(doc), env=core.repo_env({'PYTHONHASHSEED': str(job.get('hashseed', 0))}),
                  timeout=900)
     try:
@@ -336,12 +364,25 @@ class Hist:
         self.hashseed = 0
         self.markers = False          # leading marker of the model's table_render (scripts carry their own 'k' items)
 
-    def new(self, cfg: int, subset=None, pps=None) -> int:
+    def new(self, cfg: int, subset=None, pps=None, variant: str = 'v1', lctx_of: typing.Optional[int] = None) -> int:
         c = self.cfgs[cfg]
         self.steps.append({'op': 'new', 'gen': 'g%d' % len(self.gens), 'lang': c['lang'], 'lang_opts': c.get('lang_opts'),
-                           'templates': c.get('templates'), 'pps': pps, 'subset': subset})
-        self.gens.append({'cfg': cfg, 'subset': subset if subset is not None else list(self.sp.order), 'step': len(self.steps) - 1})
+                           'templates': c.get('templates'), 'pps': pps, 'subset': subset, 'variant': variant,
+                           'lctx_of': None if lctx_of is None else 'g%d' % lctx_of})
+        self.gens.append({'cfg': cfg, 'subset': subset if subset is not None else list(self.sp.order), 'step': len(self.steps) - 1,
+                          'prefix': '' if variant == 'v1' else variant + ':'})
         return len(self.gens) - 1
+
+    def all_deps(self) -> typing.Dict[str, typing.List[str]]:
+        """the model's universe: a redefined type is a different type (model keys of the second variant carry a prefix)"""
+        d = dict(self.sp.deps)
+        v2 = getattr(self.sp, 'v2', None)
+        if v2 is not None:
+            d.update({'v2:' + k: ['v2:' + x for x in ds] for k, ds in v2.deps.items()})
+        return d
+
+    def mkeys(self) -> typing.List[str]:
+        return list(self.sp.order) + (['v2:' + k for k in self.sp.order] if getattr(self.sp, 'v2', None) is not None else [])
 
     def run(self, gid: int, perm=None, chunks=False):
         self.steps.append({'op': 'run', 'gen': 'g%d' % gid, 'perm': perm, 'chunks': chunks, 'gid': gid})
@@ -350,7 +391,10 @@ class Hist:
         self.steps.append({'op': 'clear_caches'})
 
     def job(self) -> dict:
-        return {'root': self.sp.root, 'dsdl': self.sp.files, 'dsdl_root': self.sp.materialise(), 'steps': self.steps,
+        roots = {'v1': self.sp.materialise()}
+        if getattr(self.sp, 'v2', None) is not None:
+            roots['v2'] = self.sp.v2.materialise()
+        return {'root': self.sp.root, 'dsdl': self.sp.files, 'dsdl_roots': roots, 'steps': self.steps,
                 'hashseed': self.hashseed, 'name': self.name}
 
 
@@ -519,6 +563,24 @@ def memo_witness_history() -> Hist:
     return h
 
 
+FID_DEP = 'F-DEPBUILDER-STALE'
+
+
+def depbuilder_witness_history() -> Hist:
+    """the witness of F-DEPBUILDER-STALE: C, built-in templates; one LanguageContext object used for the namespace and then for
+    its redefinition (Holder.part: PartA -> equally sized PartB); third generator: the redefinition with its own context"""
+    import random
+    sp = builtin_space(random.Random(0), 0)
+    h = Hist('depbuilder-witness', sp, 'probe')
+    h.cfgs[1] = {'lang': 'c', 'lang_opts': None}
+    sub = sp.closure(['nsx.Holder.1.0']) + ['nsx.PartB.1.0']
+    g0 = h.new(1, sub)
+    h.run(g0)
+    h.run(h.new(1, sub, variant='v2', lctx_of=g0))
+    h.run(h.new(1, sub, variant='v2'))
+    return h
+
+
 def gen_builtin_histories(rng, lang: str, sp: Space, tier: str) -> typing.List[Hist]:
     opts = LANG_OPTS[lang]
     out = []
@@ -542,7 +604,24 @@ def gen_builtin_histories(rng, lang: str, sp: Space, tier: str) -> typing.List[H
         g4 = h.new(3)
         h.run(g4, chunks=True)
         h.run(g1)
+    # the REDEFINED namespace (same names/versions/sizes: changed dependency, field order, constant) generated by a new
+    # generator of the same interpreter, then the original one again
+    gv = h.new(1, variant='v2')
+    h.run(gv, perm=rng.randrange(1, 1000), chunks=True)
+    h.run(h.new(1), perm=rng.randrange(1, 1000))
+    # every type rendered FIRST by a new generator object (new template environment) from its closure only: state that is
+    # set up once per environment / by the first rendered file shows against the runs above where the type is not first
+    firsts = list(sp.order) if (lang == 'c' or tier != 'quick') else rng.sample(sp.order, 4)
+    for t in firsts:
+        gt = h.new(1, sp.closure([t]))
+        h.run(gt, perm={'first': t})
     out.append(h)
+    # reference for the redefined namespace: a new interpreter that has never seen the first variant
+    fv = Hist('builtin-%s-fresh-v2' % lang, sp, 'builtin')
+    fv.hashseed = rng.randrange(0, 1000)
+    fv.cfgs = h.cfgs
+    fv.run(fv.new(1, variant='v2'), chunks=True)
+    out.append(fv)
     # new interpreters: a subset with one type first; the other configuration first
     n_fresh = 2 if tier == 'quick' else 5
     for j in range(n_fresh):
@@ -580,13 +659,13 @@ def line_up(h: Hist, out: typing.List[dict]) -> typing.Tuple[typing.List[dict], 
             if any(p[0] == 'other' for p in r['pps']):
                 errs.append('unexpected post-processor %r' % (r['pps'],))
             g['tset'] = [tuple(x) for x in r.get('tset', [])]
-            ops.append(('new', g['cfg'], r['pps'], g['subset'], g['tset']))
+            ops.append(('new', g['cfg'], r['pps'], [g['prefix'] + k for k in g['subset']], g['tset']))
         elif st['op'] == 'run':
             gid = st['gid']
             g = h.gens[gid]
-            ops.append(('run', gid, r['order']))
+            ops.append(('run', gid, [g['prefix'] + k for k in r['order']]))
             for k in r['order']:
-                entries.append({'gid': gid, 'cfg': g['cfg'], 'key': k, 'text': r['files'][k], 'pps': g['pps'],
+                entries.append({'gid': gid, 'cfg': g['cfg'], 'key': k, 'mkey': g['prefix'] + k, 'text': r['files'][k], 'pps': g['pps'],
                                 'chunks': (r.get('chunks') or {}).get(k), 'tmpl': (r.get('tmpl') or {}).get(k),
                                 'cls': (r.get('cls') or {}).get(k), 'tset': g['tset']})
         else:
@@ -634,7 +713,7 @@ def main(chk: core.Check, replay: typing.Optional[str] = None) -> int:
             import random
             rng = random.Random(doc['seed'])
     n_script = 40 if quick else 400
-    hists: typing.List[Hist] = [witness_history(), fold_witness_history(), memo_witness_history()]
+    hists: typing.List[Hist] = [witness_history(), fold_witness_history(), memo_witness_history(), depbuilder_witness_history()]
     hists += [gen_script_history(rng, i) for i in range(n_script)]
     sp = builtin_space(rng, 3 if quick else 10)
     for lang in LANGS:
@@ -678,6 +757,20 @@ def main(chk: core.Check, replay: typing.Optional[str] = None) -> int:
         elif memo_live:
             broken.append('unlisted deviation: Python _MODEL_ pickle depends on what was generated before')
 
+    d_entries, _, d_errs = line_up(hists[3], results[3]['out'])
+    dep_live = False
+    if not d_errs and len(d_entries) == 9:
+        shared = {e['key']: e['text'] for e in d_entries[3:6]}
+        own = {e['key']: e['text'] for e in d_entries[6:9]}
+        dep_live = shared['nsx.Holder.1.0'] != own['nsx.Holder.1.0']
+        if dep_live and chk.is_known(FID_DEP):
+            chk.report_known(FID_DEP, 'Holder_1_0.h of the redefined namespace generated with the LanguageContext of the first one still '
+                                      'includes %s' % ('PartA_1_0.h' if 'PartA_1_0.h' in shared['nsx.Holder.1.0'] else '?'))
+        elif dep_live:
+            broken.append('unlisted deviation: dependency builder memo returns the builder of an equal-looking type of an earlier namespace')
+    else:
+        broken.append('F-DEPBUILDER-STALE probe did not run: %s' % (d_errs[:1] or len(d_entries)))
+
     # 4. compare
     stats = {'histories': len(hists), 'script_histories': 0, 'builtin_histories': 0, 'files': 0, 'files_by_lang': {},
              'model_vs_impl_compared': 0, 'oracle_vs_impl_compared': 0, 'known_finding_instances': 0,
@@ -698,7 +791,7 @@ def main(chk: core.Check, replay: typing.Optional[str] = None) -> int:
             fresh = 'fresh' in h.name
             for e in entries:
                 if e['chunks'] is not None:
-                    k = (lang, e['cfg'], e['key'])
+                    k = (lang, e['cfg'], e['mkey'])
                     if fresh or k not in builtin_chunks:
                         builtin_chunks[k] = e['chunks']
     r_forest = {id(h): r.get('forest', {}) for h, r in zip(hists, results)}
@@ -710,15 +803,15 @@ def main(chk: core.Check, replay: typing.Optional[str] = None) -> int:
         lang_of_cfg = {c: v['lang'] for c, v in h.cfgs.items()}
         tables = {}
         for c, v in h.cfgs.items():
-            for t in h.sp.order:
+            for t in h.mkeys():
                 if h.kind == 'script':
                     tables[(c, t)] = v['scripts'][t]
                 else:
                     ch = builtin_chunks.get((v['lang'], c, t))
                     if ch is not None:
                         tables[(c, t)] = [['t', skel(''.join(ch))]]
-        cls_of = {e['key']: e['cls'] for e in entries if e.get('cls')}
-        requests.append(model_request(h.sp.deps, tables, lang_of_cfg, ops, resets_fact, lel_shared, r_forest[id(h)], cls_of,
+        cls_of = {e['mkey']: e['cls'] for e in entries if e.get('cls')}
+        requests.append(model_request(h.all_deps(), tables, lang_of_cfg, ops, resets_fact, lel_shared, r_forest[id(h)], cls_of,
                                       h.markers))
     models = run_model(exe, requests) if ok_model else [None] * len(hists)
 
@@ -727,7 +820,7 @@ def main(chk: core.Check, replay: typing.Optional[str] = None) -> int:
     for h, (entries, ops, errs) in zip(hists, lined):
         if h.kind == 'builtin' and 'fresh' in h.name and entries and not errs:
             e = entries[0]
-            alone_builtin.setdefault((h.cfgs[e['cfg']]['lang'], e['cfg'], e['key']), (e['text'], h.name + ' (first file of a new interpreter)'))
+            alone_builtin.setdefault((h.cfgs[e['cfg']]['lang'], e['cfg'], e['mkey']), (e['text'], h.name + ' (first file of a new interpreter)'))
     for h, (entries, ops, errs), m in zip(hists, lined, models):
         if h.kind == 'probe':
             continue
@@ -774,7 +867,7 @@ def main(chk: core.Check, replay: typing.Optional[str] = None) -> int:
                 expect = alone_oracle(script_text(script, lang, '<%s>' % (sel or '')), e['pps'])
                 uses_uniq = any(it[0] == 'u' for it in script)
             else:
-                k = (lang, e['cfg'], e['key'])
+                k = (lang, e['cfg'], e['mkey'])
                 if k not in alone_builtin:
                     alone_builtin[k] = (e['text'], h.name)
                 expect = alone_builtin[k][0]
@@ -803,12 +896,12 @@ def main(chk: core.Check, replay: typing.Optional[str] = None) -> int:
                     stats['known_finding_instances'] += 1
                 else:
                     bad_oracle.append({'history': h.name, 'file_index': i, 'type': e['key'], 'lang': lang, 'expected': expect,
-                                       'got': e['text'], 'reference': alone_builtin.get((lang, e['cfg'], e['key']), ('', 'alone oracle'))[1]
+                                       'got': e['text'], 'reference': alone_builtin.get((lang, e['cfg'], e['mkey']), ('', 'alone oracle'))[1]
                                        if h.kind == 'builtin' else 'own script only', 'job': h.job()})
             # --- model vs. implementation
             if me is not None:
                 stats['model_vs_impl_compared'] += 1
-                if me['key'] != e['key'] or me['text'] != (e['text'] if h.kind == 'script' else skel(e['text'])):
+                if me['key'] != e['mkey'] or me['text'] != (e['text'] if h.kind == 'script' else skel(e['text'])):
                     bad_model.append({'history': h.name, 'file_index': i, 'type': e['key'], 'model': me['text'], 'implementation': e['text'],
                                       'job': h.job()})
 
